@@ -11,11 +11,12 @@ import (
 type expKind int
 
 const (
-	xKeep     expKind = iota // cell must keep its previous value (new rows: must be NULL)
-	xBe                      // cell must have the given value (only asserted when the call returned no error)
-	xFresh                   // cell must hold a fresh clock value (only asserted when no error)
-	xFree                    // not asserted
-	xNotFresh                // not asserted, except that it must not hold a fresh clock value
+	xKeep      expKind = iota // cell must keep its previous value (new rows: must be NULL)
+	xBe                       // cell must have the given value (only asserted when the call returned no error)
+	xFresh                    // cell must hold a fresh clock value (only asserted when no error)
+	xFree                     // not asserted
+	xNotFresh                 // not asserted, except that it must not hold a fresh clock value
+	xBeOrFresh                // must hold the given value or a fresh clock value (only asserted when no error)
 )
 
 type cellExp struct {
@@ -109,7 +110,9 @@ func (c Case) beVal(i, r int, create bool, why string) cellExp {
 }
 
 // ---- new row produced from a struct by a create path
-func (c Case) newRowFromStruct(si selInfo, r int, id interface{}) []cellExp {
+// utTracked: the program re-tracks the update-time even when the struct
+// carries one (Save of a slice, Save falling back to an insert).
+func (c Case) newRowFromStruct(si selInfo, r int, id interface{}, utTracked bool) []cellExp {
 	m := c.Model
 	out := make([]cellExp, nLogical)
 	if id != nil {
@@ -134,12 +137,15 @@ func (c Case) newRowFromStruct(si selInfo, r int, id interface{}) []cellExp {
 			out[l] = c.beVal(i, r, true, "create writes every permitted field")
 		}
 	}
-	for _, l := range []int{lCT, lUT} {
+	for k, l := range []int{lCT, lUT} {
+		supplied := c.TVals[k] != 0
 		switch {
 		case si.omitted[l]:
 			out[l] = keep(false, "omitted", true)
 		case si.restricted && !si.explicit[l]:
 			out[l] = free("auto-time field under a restricting Select on create: undocumented")
+		case supplied && !(l == lUT && utTracked):
+			out[l] = be(m.timeVal(k), "create keeps a non-zero time supplied by the caller")
 		default:
 			out[l] = cellExp{kind: xFresh, why: "time tracking on create"}
 		}
@@ -178,8 +184,18 @@ func (c Case) newRowFromMap(si selInfo, r int, pr *prediction) []cellExp {
 			out[l] = c.beVal(i, r, true, "create from map writes every permitted key")
 		}
 	}
-	out[lCT] = free("time tracking on create-from-map: undocumented")
-	out[lUT] = free("time tracking on create-from-map: undocumented")
+	for k, l := range []int{lCT, lUT} {
+		switch {
+		case c.TVals[k] == 0:
+			out[l] = free("time tracking on create-from-map: undocumented")
+		case si.omitted[l]:
+			out[l] = keep(false, "omitted", true)
+		case si.restricted && !si.explicit[l]:
+			out[l] = keep(false, "not selected", true)
+		default:
+			out[l] = be(m.timeVal(k), "create from map writes every permitted key")
+		}
+	}
 	return out
 }
 
@@ -198,10 +214,10 @@ func predict(c Case) *prediction {
 
 	switch c.Fin {
 	case fCreate, fSaveNew:
-		pr.newRows = append(pr.newRows, c.newRowFromStruct(si, 0, nil))
+		pr.newRows = append(pr.newRows, c.newRowFromStruct(si, 0, nil, false))
 	case fCreateBatches:
 		for r := 0; r < 3; r++ {
-			pr.newRows = append(pr.newRows, c.newRowFromStruct(si, r, nil))
+			pr.newRows = append(pr.newRows, c.newRowFromStruct(si, r, nil, false))
 		}
 	case fCreateMap:
 		pr.newRows = append(pr.newRows, c.newRowFromMap(si, 0, pr))
@@ -215,12 +231,12 @@ func predict(c Case) *prediction {
 		if !keyInserted(si) {
 			// the key is not part of the INSERT: no conflict, plain creates
 			pr.note = "key not inserted"
-			pr.newRows = append(pr.newRows, c.newRowFromStruct(si, 0, nil))
+			pr.newRows = append(pr.newRows, c.newRowFromStruct(si, 0, nil, c.Fin == fSaveSlice))
 		} else {
 			pr.rows[1] = c.conflictRowStruct(si)
 		}
 		if c.Fin == fUpsertAllSlice || c.Fin == fSaveSlice {
-			pr.newRows = append(pr.newRows, c.newRowFromStruct(si, 1, nil))
+			pr.newRows = append(pr.newRows, c.newRowFromStruct(si, 1, nil, c.Fin == fSaveSlice))
 		}
 	case fUpsertAllMap:
 		if !keyInserted(si) {
@@ -249,7 +265,7 @@ func predict(c Case) *prediction {
 				}
 			}
 			row[lID] = keep(true, "primary key", false)
-			row[lCT] = keep(m.CTag, "create-time on conflict", false)
+			row[lCT] = keep(m.CTag, "create-time is not rewritten on conflict", c.TVals[0] != 0)
 			row[lUT] = free("update-time on upsert from map: undocumented")
 			pr.rows[1] = row
 		}
@@ -265,7 +281,7 @@ func predict(c Case) *prediction {
 				}
 			}
 			si2.restricted = false
-			pr.newRows = append(pr.newRows, c.newRowFromStruct(si2, 0, int64(9)))
+			pr.newRows = append(pr.newRows, c.newRowFromStruct(si2, 0, int64(9), true))
 		}
 
 	case fSaveExisting, fUpdatesSelf, fUpdatesStruct, fUpdatesStructPtr, fUpdatesMap, fUpdate, fUpdateColumn, fUpdateColumnsMap, fUpdateColumnsStruct:
@@ -320,7 +336,7 @@ func (c Case) conflictRowStruct(si selInfo) []cellExp {
 				row[l] = keep(p.Ign || !p.U || !p.C, "not listed in DoUpdates", true)
 			}
 		}
-		row[lCT] = keep(m.CTag, "not listed in DoUpdates", false)
+		row[lCT] = keep(m.CTag, "not listed in DoUpdates", c.TVals[0] != 0)
 		row[lUT] = free("update-time under explicit DoUpdates: undocumented")
 	default: // UpdateAll
 		for i := 0; i < 4; i++ {
@@ -342,7 +358,7 @@ func (c Case) conflictRowStruct(si selInfo) []cellExp {
 				row[l] = c.beVal(i, 0, true, "upsert UpdateAll writes every permitted column")
 			}
 		}
-		row[lCT] = keep(m.CTag, "create-time is not rewritten on conflict", false)
+		row[lCT] = keep(m.CTag, "create-time is not rewritten on conflict", c.TVals[0] != 0)
 		switch {
 		case si.omitted[lUT]:
 			row[lUT] = keep(false, "omitted", true)
@@ -359,7 +375,7 @@ func (c Case) conflictRowStruct(si selInfo) []cellExp {
 func (c Case) updateRow(si selInfo) []cellExp {
 	m := c.Model
 	isStruct := finIsStruct(c.Fin)
-	hooks := !finSkipsHooks(c.Fin)
+	hooks := !c.noHooks()
 	destIsModel := finSelfKeyed(c.Fin)
 	if c.Fin == fSaveExisting && !c.Sel.Star && len(c.Sel.Sel) == 0 {
 		// Save = all fields
@@ -404,22 +420,54 @@ func (c Case) updateRow(si selInfo) []cellExp {
 		}
 	}
 	// update-time
+	utSupplied := c.TVals[1] != 0
+	utVal := m.timeVal(1)
 	switch {
-	case hooks && si.omitted[lUT]:
+	case si.omitted[lUT]:
 		row[lUT] = keep(true, "update-time omitted", true)
-	case hooks:
+	case hooks && isStruct:
 		row[lUT] = cellExp{kind: xFresh, hard: true, why: "hook-running update refreshes update-time"}
+	case hooks && !utSupplied:
+		row[lUT] = cellExp{kind: xFresh, hard: true, why: "hook-running update refreshes update-time"}
+	case hooks && (si.explicit[lUT] || !si.restricted):
+		// map key for the update-time column under a hook-running update:
+		// gorm writes the caller's value instead of now; either is accepted,
+		// the stored value must not survive
+		row[lUT] = cellExp{kind: xBeOrFresh, val: utVal, why: "hook-running update with a caller-supplied update-time key"}
+	case hooks:
+		row[lUT] = free("map key for the update-time column that a restricting Select does not name, hook-running update: undocumented")
+	// --- column-update methods / SkipHooks sessions from here on
+	case si.explicit[lUT] && utSupplied:
+		row[lUT] = cellExp{kind: xBe, val: utVal, hard: false, why: "update-time selected and supplied by the caller"}
+	case si.explicit[lUT] && isStruct:
+		row[lUT] = cellExp{kind: xNotFresh, hard: true, why: "UpdateColumn(s) never refresh update-time (selected explicitly: the struct's zero value may be written)"}
 	case si.explicit[lUT]:
-		row[lUT] = cellExp{kind: xNotFresh, hard: true, why: "UpdateColumn(s) never refresh update-time"}
+		row[lUT] = keep(true, "UpdateColumn(s) never touch auto-time fields (no key)", true)
+	case si.restricted:
+		row[lUT] = keep(true, "UpdateColumn(s): update-time is not selected", utSupplied)
+	case utSupplied:
+		row[lUT] = cellExp{kind: xBe, val: utVal, why: "update-time supplied by the caller to a column-update method"}
 	default:
 		row[lUT] = keep(true, "UpdateColumn(s) never touch auto-time fields", true)
 	}
-	// create-time
+	// create-time: an ordinary column for updates, never refreshed
+	ctSupplied := c.TVals[0] != 0
+	ctVal := m.timeVal(0)
 	switch {
 	case m.CTag:
-		row[lCT] = keep(true, "create-time field is <-:create", si.explicit[lCT])
-	case isStruct && si.explicit[lCT]:
-		row[lCT] = cellExp{kind: xNotFresh, hard: !hooks, why: "create-time selected explicitly: struct value is written; never a fresh time"}
+		row[lCT] = keep(true, "create-time field is <-:create", si.explicit[lCT] || ctSupplied)
+	case si.omitted[lCT]:
+		row[lCT] = keep(false, "omitted", ctSupplied)
+	case si.explicit[lCT] && ctSupplied:
+		row[lCT] = be(ctVal, "create-time selected and supplied")
+	case si.explicit[lCT] && isStruct:
+		row[lCT] = cellExp{kind: xNotFresh, hard: !hooks, why: "create-time selected explicitly: the struct's zero value is written; never a fresh time"}
+	case si.explicit[lCT]:
+		row[lCT] = keep(!hooks, "no key for the create-time column", false)
+	case si.restricted:
+		row[lCT] = keep(!hooks, "create-time not selected", ctSupplied)
+	case ctSupplied:
+		row[lCT] = be(ctVal, "create-time supplied by the caller (ordinary updatable column)")
 	default:
 		row[lCT] = keep(!hooks, "create-time is not part of the update", false)
 	}
@@ -528,6 +576,14 @@ func (c Case) compare(pr *prediction, before, after []row, err error) (fs []find
 				if !isFresh(got) {
 					add(e.hard, "update-time not refreshed", "row rk=%d column %s: got %s (was %s), expected a fresh time (%s)", rk, col, cellStr(got), cellStr(was), e.why)
 				}
+			case xBeOrFresh:
+				if err != nil {
+					break
+				}
+				st.beChecked++
+				if cellStr(got) != cellStr(e.val) && !isFresh(got) {
+					add(e.hard, "expected write missing or wrong", "row rk=%d column %s: got %s (was %s), expected %s or a fresh time (%s)", rk, col, cellStr(got), cellStr(was), cellStr(e.val), e.why)
+				}
 			case xNotFresh:
 				if changed && isFresh(got) {
 					add(e.hard, "auto-time refreshed where it must not be", "row rk=%d column %s: %s -> %s (%s)", rk, col, cellStr(was), cellStr(got), e.why)
@@ -614,7 +670,7 @@ func (pr *prediction) String(m ModelSpec) string {
 	one := func(name string, exp []cellExp) {
 		sb.WriteString("  " + name + ":")
 		for l, e := range exp {
-			k := []string{"keep", "be", "fresh", "free", "notfresh"}[e.kind]
+			k := []string{"keep", "be", "fresh", "free", "notfresh", "be-or-fresh"}[e.kind]
 			if e.kind == xBe && !e.expr {
 				k = "=" + cellStr(e.val)
 			} else if e.kind == xBe {
